@@ -78,6 +78,9 @@ def absorb_sim(chk, c, res, retry_log=None):
     """Returns (record, anomaly). Own-property VKEYs become violations; others are foreign notes."""
     rec, anomaly = vlib.absorb(chk, res, replay_extra={"case": {k: v for k, v in c.items() if k != "exe"}})
     m = HANG_RE.search(res.out)
+    if "MEMORY-BACKSTOP" in res.out:
+        chk.inconc_case("memory backstop (3 GiB resident) on %s: unbounded speculation, no verdict" % res.tag)
+        return rec, "membackstop"
     if m:
         anomaly = "hang:" + m.group(1)
     elif anomaly and anomaly.startswith("san:"):
